@@ -376,6 +376,12 @@ func ruleF34(c *Ctx) *RuleResult {
 					}
 				}
 			}
+			if inner, ok := val.(*ssa.Call); ok && len(alts) == 0 {
+				if g := inner.Call.StaticCallee(); g != nil && g.Pkg != nil && g.Pkg.Pkg.Path() == "mime" {
+					r.fail(key, c.Pos(call.Pos()), FuncName(fn), what, "the Content-Type is looked up with mime."+g.Name()+": the answer depends on the MIME tables of the host (`.ts` is a Qt translation file on freedesktop systems, unknown in a bare container)")
+					return
+				}
+			}
 			if len(alts) == 0 {
 				r.undecided("F34: %s sets a Content-Type that is not a constant or a choice between constants: form not known to the rule", FuncName(fn))
 				return
